@@ -67,6 +67,8 @@ def worker(prop, tier, seed, shard, nshards, out, only=None, second=False):
         ctx.case = (idx, spec)
         rng = np.random.default_rng([seed, pnum, idx])
         ctx.freeze_case = (idx * 2654435761 + seed * 40503 + pnum) % 4 == 1  # one case in four hands the library read-only arrays
+        ctx.layout_case = (idx * 2654435761 + seed * 40503 + pnum) % 4 == 3  # another one hands it Fortran-ordered / strided copies of the same values
+        ctx._layout_n = 0
         # any use of the global generators inside the library is tied to the case, not to what ran before it
         np.random.seed((seed * 1000003 + pnum * 7919 + idx) % (2 ** 32))
         random.seed(seed * 1000003 + pnum * 7919 + idx)
